@@ -1,18 +1,572 @@
-"""Ghost file system, pathlib.Path, open(), decimal text.  Filled in for C19."""
+"""Ghost file system, pathlib.Path, open(), decimal text.  Filled in for C19.
+
+Trusted model (each part is recorded in ctx.trusted when it is used):
+
+* File system: a map  key -> text | absent  kept in ctx.ghost["fs"] (per path of the symbolic execution).
+  Text is a rope of characters; only ASCII text is modelled (characters = octets, no codec questions).
+  Only paths handed out by the spec primitive ghost_file(...) exist in the map; anything else is
+  reported as unsupported.  No I/O error other than FileNotFoundError, single process, POSIX host
+  (os.linesep == "\\n").
+* open(p, "w") creates/truncates, open(p) / open(p, "r") / open(p, "r+") raise FileNotFoundError for an absent
+  file; text mode with universal newlines: readline() returns the characters up to and including the first
+  line end, "\\r" and "\\r\\n" being translated to "\\n"; seek(0); write(s) overwrites in place from the
+  current position and extends the file at its end, it never truncates (CPython semantics); leaving
+  the with-block closes the file (content is visible to later opens).
+* Decimal text: dec(n), the canonical decimal rendering of n >= 0 (str(n), f"{n}"), is an uninterpreted
+  function into character sequences with the axioms: non-empty; ASCII digits only (therefore no line end,
+  no white space: rstrip() leaves it unchanged, isdigit() is True); length 1 iff n <= 9; int(dec(n)) == n
+  (hence dec is injective).  CPython's limit of 4300 digits for int<->str conversion is not modelled.
+* Text of symbolic length: position of the first line end (first_nl), length after rstrip (rstrip_len),
+  "all characters are digits" (all_digits) and the decimal value (decval >= 0) are uninterpreted; the
+  character facts that follow from their definition are asserted only where a character is singled out.
+  This over-approximates the behaviours of CPython (a proof is a proof, a counter-model may be spurious
+  and is decided by native replay).
+"""
 from __future__ import annotations
+import z3
 from .values import *  # noqa
-from .explore import Unsupported
+from .values import NOT_IMPLEMENTED
+from . import ops
+from .ops import as_int, is_intlike, zi
+from .explore import Unsupported, PathInfeasible
+
+DEC = z3.Function("dec", IntSort, SeqSort)
+DECLEN = z3.Function("declen", IntSort, IntSort)
+DECVAL = z3.Function("decval", SeqSort, IntSort)
+ALLDIG = z3.Function("all_digits", SeqSort, z3.BoolSort())
+FIRSTNL = z3.Function("first_nl", SeqSort, IntSort)
+RSTRIPLEN = z3.Function("rstrip_len", SeqSort, IntSort)
+
+ASCII = 127  # value of Blk.octets for blocks of text: upper bound of an element
+
+T_FS = ("fs: ghost file system (path -> ASCII text | absent); pathlib.Path.exists, open(p, 'w'|'r'|'r+') in text mode with universal "
+        "newlines on a POSIX host, readline, seek(0), write = overwrite in place / extend at end without truncation, close on "
+        "with-exit; no I/O error other than FileNotFoundError, single process")
+T_DEC = ("dec: canonical decimal text dec(n) of n >= 0 (str(n), f'{n}') is uninterpreted with the axioms: non-empty, ASCII digits only "
+         "(no line end / white space, rstrip() and isdigit() accordingly), length 1 iff n <= 9, int(dec(n)) == n; CPython's "
+         "4300-digit conversion limit is not modelled")
+T_TEXT = ("text: on ASCII text of symbolic length first_nl / rstrip_len / all_digits / decval are uninterpreted "
+          "(over-approximation of readline, rstrip, isdigit, int)")
 
 
-def open_(interp, *a, **k):
-    raise Unsupported("open()")
+class TextV(StrV):
+    """ASCII text: characters == octets (utf8.rope holds the characters)."""
+    __slots__ = ()
+
+
+class DecBlk(Blk):
+    """The block dec(num)."""
+    __slots__ = ("num",)
+
+
+def _b(name):
+    def deco(fn):
+        return Builtin(name, lambda interp, args, kwargs: fn(interp, *args, **kwargs))
+    return deco
+
+
+def mk_text(rope):
+    rope = list(rope)
+    return TextV(BytesV(rope, "bytes"), ops.rope_len(rope))
+
+
+# ------------------------------------------------------------------------------------------------
+# decimal text
+# ------------------------------------------------------------------------------------------------
+
+def dec_rope(interp, n):
+    """characters of str(n) for an integer n (int | SInt)"""
+    n = as_int(n)
+    if isinstance(n, int):
+        return [ord(c) for c in str(n)]
+    ctx = interp.ctx
+    if interp.truth(ops.cmp("<", n, 0)):
+        return [45] + dec_rope(interp, ops.neg(n))
+    key = ("dec", n.t.get_id())
+    blk = ctx.ghost.get(key)
+    if blk is None:
+        ctx.trusted.add(T_DEC)
+        t = DEC(n.t)
+        ln = DECLEN(n.t)
+        ctx.assume(z3.Length(t) == ln)
+        ctx.assume(ln >= 1)
+        ctx.assume((ln == 1) == (n.t <= 9))
+        ctx.assume(DECVAL(t) == n.t)
+        ctx.assume(ALLDIG(t))
+        blk = DecBlk(t, ln, f"dec({n.t})", ASCII)
+        blk.num = n
+        ctx.ghost[key] = blk
+    return [blk]
+
+
+def _digits_known(ctx, e):
+    return isinstance(e, DecBlk) or ("digits", id(e)) in ctx.ghost
+
+
+def text_rope(interp, s):
+    """characters of a text value (str | TextV | f-string of those and of integers); NOT_IMPLEMENTED if
+    the value is not such a text"""
+    if isinstance(s, str):
+        if not s.isascii():
+            raise Unsupported("non-ASCII text in the ghost file system")
+        return [ord(c) for c in s]
+    if isinstance(s, TextV):
+        return list(s.utf8.rope)
+    if isinstance(s, FStrV):
+        out = []
+        for p in s.parts:
+            if isinstance(p, str):
+                r = text_rope(interp, p)
+            else:
+                val, conv, spec = p
+                if spec != "" or conv not in (-1, ord("s")):
+                    return NOT_IMPLEMENTED
+                if isinstance(val, (bool, SBool)):
+                    return NOT_IMPLEMENTED
+                if is_intlike(val) and not isinstance(val, EnumV):
+                    r = dec_rope(interp, val)
+                elif isinstance(val, (str, TextV, FStrV)):
+                    r = text_rope(interp, val)
+                    if r is NOT_IMPLEMENTED:
+                        return r
+                else:
+                    return NOT_IMPLEMENTED
+            out.extend(r)
+        return out
+    return NOT_IMPLEMENTED
+
+
+def text_eq(interp, a, b):
+    ra = text_rope(interp, a)
+    rb = text_rope(interp, b)
+    if ra is NOT_IMPLEMENTED or rb is NOT_IMPLEMENTED:
+        return NOT_IMPLEMENTED
+    return ops.rope_eq(ra, rb)
+
+
+def _is_ws_term(e):
+    return z3.Or(z3.And(e >= 9, e <= 13), z3.And(e >= 28, e <= 32))
+
+
+def _one(interp, rope, pos):
+    """(left, element, right) with the element at offset pos singled out (0 <= pos < len established)"""
+    left, rest = ops.split_at(interp, rope, pos)
+    one, right = ops.split_at(interp, rest, 1)
+    one = ops.norm(one)
+    if len(one) != 1 or isinstance(one[0], Blk):
+        raise Unsupported("could not single out a character")
+    return left, one[0], right
+
+
+def _seg_len(e):
+    if not isinstance(e, Blk):
+        return 1
+    return e.n if isinstance(e.n, int) else ops.mk(e.n, 0, None, 0)
+
+
+def take_line(interp, data):
+    """readline on the characters `data` (text mode, universal newlines): (line, number of characters consumed)"""
+    ctx = interp.ctx
+    out = []
+    consumed = 0
+    rope = ops.norm(data)
+    i = 0
+    while i < len(rope):
+        e = rope[i]
+        if isinstance(e, Blk):
+            if _digits_known(ctx, e):
+                out.append(e)
+                consumed = ops.add(consumed, _seg_len(e))
+                i += 1
+                continue
+            ctx.trusted.add(T_TEXT)
+            n_t = ops.elem_term(e.n)
+            k = FIRSTNL(e.seq)
+            ctx.assume(z3.And(k >= -1, k < n_t))
+            if ctx.branch(k < 0):
+                out.append(e)
+                consumed = ops.add(consumed, _seg_len(e))
+                i += 1
+                continue
+            pre, ch, post = _one(interp, [e], ops.mk(k, 0, None, 0))
+            ctx.assume(z3.Or(ops.elem_term(ch) == 10, ops.elem_term(ch) == 13))
+            rope = rope[:i] + list(pre) + [ch] + list(post) + rope[i + 1:]
+            for p in pre:
+                out.append(p)
+                consumed = ops.add(consumed, _seg_len(p))
+            i += len(pre)
+            continue
+        if isinstance(e, int):
+            is10, is13 = e == 10, e == 13
+        else:
+            is10 = ctx.branch(e == 10)
+            is13 = False if is10 else ctx.branch(e == 13)
+        if is10:
+            out.append(10)
+            return out, ops.add(consumed, 1)
+        if is13:
+            consumed = ops.add(consumed, 1)
+            rest = rope[i + 1:]
+            if interp.truth(ops.cmp(">=", ops.rope_len(rest), 1)):
+                _, nxt, _ = _one(interp, rest, 0)
+                if isinstance(nxt, int):
+                    lf = nxt == 10
+                else:
+                    lf = ctx.branch(nxt == 10)
+                if lf:
+                    consumed = ops.add(consumed, 1)
+            out.append(10)
+            return out, consumed
+        out.append(e)
+        consumed = ops.add(consumed, 1)
+        i += 1
+    return out, consumed
+
+
+def t_rstrip(interp, s, chars=None):
+    if chars is not None:
+        raise Unsupported("rstrip with an argument on abstract text")
+    if not isinstance(s, TextV):
+        raise Unsupported("rstrip on an abstract non-ASCII string")
+    ctx = interp.ctx
+    rope = list(ops.norm(s.utf8.rope))
+    while rope:
+        e = rope[-1]
+        if isinstance(e, Blk):
+            if _digits_known(ctx, e):
+                break
+            ctx.trusted.add(T_TEXT)
+            n_t = ops.elem_term(e.n)
+            j = RSTRIPLEN(e.seq)
+            ctx.assume(z3.And(j >= 0, j <= n_t))
+            if ctx.branch(j == 0):
+                rope.pop()
+                continue
+            keep, _ = ops.split_at(interp, [e], ops.mk(j, 1, None, 0))
+            front, ch, _ = _one(interp, keep, ops.mk(j - 1, 0, None, 0))
+            ctx.assume(z3.Not(_is_ws_term(ops.elem_term(ch))))
+            rope = rope[:-1] + list(front) + [ch]
+            break
+        if isinstance(e, int):
+            ws = (9 <= e <= 13) or (28 <= e <= 32)
+        else:
+            ws = ctx.branch(_is_ws_term(e))
+        if not ws:
+            break
+        rope.pop()
+    return mk_text(rope)
+
+
+def t_isdigit(interp, s):
+    if not isinstance(s, TextV):
+        raise Unsupported("isdigit on an abstract non-ASCII string")
+    ctx = interp.ctx
+    nonempty = False
+    for e in ops.norm(s.utf8.rope):
+        if isinstance(e, Blk):
+            if _digits_known(ctx, e):
+                nonempty = True
+                continue
+            if ctx.branch(ops.elem_term(e.n) == 0):
+                continue
+            ctx.trusted.add(T_TEXT)
+            if not ctx.branch(ALLDIG(e.seq)):
+                return False
+            ctx.ghost[("digits", id(e))] = e
+            nonempty = True
+        elif isinstance(e, int):
+            if not 48 <= e <= 57:
+                return False
+            nonempty = True
+        else:
+            if not ctx.branch(z3.And(e >= 48, e <= 57)):
+                return False
+            nonempty = True
+    return nonempty
+
+
+def t_startswith(interp, s, prefix):
+    from . import builtins_model as bm
+    a = text_rope(interp, s)
+    p = text_rope(interp, prefix)
+    if a is NOT_IMPLEMENTED or p is NOT_IMPLEMENTED:
+        raise Unsupported("startswith on this kind of string")
+    n = ops.rope_len(p)
+    if interp.truth(ops.cmp("<", ops.rope_len(a), n)):
+        return False
+    head, _ = ops.split_at(interp, a, n)
+    return ops.rope_eq(head, p)
 
 
 def int_of_text(interp, v, base):
-    raise Unsupported("int() of abstract text")
+    """int(text) for a text that has been established to consist of decimal digits"""
+    if base is not None and base != 10:
+        raise Unsupported("int() of abstract text with a base other than 10")
+    rope = text_rope(interp, v)
+    if rope is NOT_IMPLEMENTED:
+        raise Unsupported("int() of a formatted string")
+    ctx = interp.ctx
+    rope = ops.norm(rope)
+    if ops.rope_is_concrete(rope):
+        try:
+            return int(bytes(rope).decode("ascii"))
+        except ValueError:
+            interp.throw("ValueError", "invalid literal for int() with base 10")
+    if len(rope) == 1 and isinstance(rope[0], DecBlk):
+        return rope[0].num
+    for e in rope:
+        if isinstance(e, Blk):
+            if not _digits_known(ctx, e):
+                raise Unsupported("int() of text not established to consist of decimal digits")
+        elif isinstance(e, int):
+            if not 48 <= e <= 57:
+                raise Unsupported("int() of text not established to consist of decimal digits")
+        elif not ctx.valid(z3.And(e >= 48, e <= 57)):
+            raise Unsupported("int() of text not established to consist of decimal digits")
+    if not any(isinstance(e, Blk) for e in rope):
+        k = len(rope)
+        t = z3.Sum([(ops.elem_term(e) - 48) * (10 ** (k - 1 - i)) for i, e in enumerate(rope)]) if k > 1 else ops.elem_term(rope[0]) - 48
+        return ops.mk(t, 0, 10 ** k - 1, 0)
+    ctx.trusted.add(T_TEXT)
+    t = DECVAL(ops.rope_term(rope))
+    ctx.assume(t >= 0)
+    return ops.mk(t, 0, None, 0)
+
+
+TEXT_METHODS = {"rstrip": t_rstrip, "isdigit": t_isdigit, "startswith": t_startswith}
+
+
+# ------------------------------------------------------------------------------------------------
+# file system
+# ------------------------------------------------------------------------------------------------
+
+def get_fs(interp):
+    ctx = interp.ctx
+    fs = ctx.ghost.get("fs")
+    if fs is None:
+        fs = ctx.ghost["fs"] = {}
+    return fs
+
+
+def path_cls(interp):
+    return interp.import_module("pathlib").ns["Path"]
+
+
+def path_key(interp, p):
+    if isinstance(p, Instance) and p.cls is path_cls(interp):
+        return p.fields["_key"]
+    if isinstance(p, str):
+        return p
+    raise Unsupported("file name that is neither a str nor a pathlib.Path")
+
+
+def lookup(interp, key):
+    fs = get_fs(interp)
+    if key not in fs:
+        raise Unsupported(f"path {key!r} is not part of the ghost file system (use ghost_file)")
+    interp.ctx.trusted.add(T_FS)
+    return fs
+
+
+def ghost_file(interp, text=None):
+    """spec primitive: a fresh path; the file is absent (text None) or holds the given text"""
+    fs = get_fs(interp)
+    key = f"/ghost/{len(fs)}/seqcnt.txt"
+    if text is None:
+        fs[key] = None
+    else:
+        rope = text_rope(interp, text)
+        if rope is NOT_IMPLEMENTED:
+            raise Unsupported("ghost_file: not a text")
+        fs[key] = list(rope)
+    interp.ctx.trusted.add(T_FS)
+    return Instance(path_cls(interp), {"_key": key})
+
+
+def ghost_remove(interp, p):
+    key = path_key(interp, p)
+    fs = lookup(interp, key)
+    if fs[key] is None:
+        interp.throw("FileNotFoundError", "no such file")
+    fs[key] = None
+    return None
+
+
+def file_text(interp, p):
+    key = path_key(interp, p)
+    fs = lookup(interp, key)
+    if fs[key] is None:
+        return None
+    return mk_text(fs[key])
+
+
+def make_file_cls(interp):
+    cls = ClassV("TextIOWrapper", [interp.builtins["object"]], {}, "io")
+
+    def method(name):
+        def deco(fn):
+            b = Builtin("TextIOWrapper." + name, lambda interp_, args, kwargs: fn(interp_, *args, **kwargs))
+            b.is_method = True
+            cls.ns[name] = b
+            return fn
+        return deco
+
+    def content(interp, f):
+        if f.fields["_closed"]:
+            interp.throw("ValueError", "I/O operation on closed file.")
+        fs = lookup(interp, f.fields["_key"])
+        c = fs[f.fields["_key"]]
+        if c is None:
+            raise Unsupported("file removed while open")
+        return fs, c
+
+    @method("__enter__")
+    def enter(interp, f):
+        if f.fields["_closed"]:
+            interp.throw("ValueError", "I/O operation on closed file.")
+        return f
+
+    @method("__exit__")
+    def exit_(interp, f, *a):
+        f.fields["_closed"] = True
+        return None
+
+    @method("close")
+    def close(interp, f):
+        f.fields["_closed"] = True
+        return None
+
+    @method("flush")
+    def flush(interp, f):
+        return None
+
+    @method("readline")
+    def readline(interp, f, size=-1):
+        if size != -1:
+            raise Unsupported("readline with a size")
+        fs, c = content(interp, f)
+        if f.fields["_mode"] not in ("r", "r+"):
+            interp.throw("OSError", "not readable")
+        if f.fields["_wrote"]:
+            raise Unsupported("read after write without seek")
+        _, data = ops.split_at(interp, c, f.fields["_pos"])
+        line, used = take_line(interp, data)
+        f.fields["_pos"] = ops.add(f.fields["_pos"], used)
+        f.fields["_read"] = True
+        return mk_text(line)
+
+    @method("read")
+    def read(interp, f, size=-1):
+        raise Unsupported("read() on a ghost file (only readline is modelled)")
+
+    @method("seek")
+    def seek(interp, f, offset, whence=0):
+        content(interp, f)
+        if not (isinstance(offset, int) and offset == 0 and whence == 0):
+            raise Unsupported("seek other than seek(0)")
+        f.fields["_pos"] = 0
+        f.fields["_read"] = False
+        f.fields["_wrote"] = False
+        return 0
+
+    @method("write")
+    def write(interp, f, s):
+        fs, c = content(interp, f)
+        if f.fields["_mode"] not in ("w", "r+"):
+            interp.throw("OSError", "not writable")
+        if not isinstance(s, (str, StrV, FStrV)):
+            interp.throw("TypeError", "write() argument must be str")
+        if f.fields["_read"]:
+            raise Unsupported("write after read without seek")
+        new = text_rope(interp, s)
+        if new is NOT_IMPLEMENTED:
+            raise Unsupported("write of a formatted string that is not decimal text")
+        ln = ops.rope_len(new)
+        left, rest = ops.split_at(interp, c, f.fields["_pos"])
+        if interp.truth(ops.cmp(">=", ln, ops.rope_len(rest))):
+            tail = []
+        else:
+            _, tail = ops.split_at(interp, rest, ln)
+        fs[f.fields["_key"]] = list(left) + list(new) + list(tail)
+        f.fields["_pos"] = ops.add(f.fields["_pos"], ln)
+        f.fields["_wrote"] = True
+        return ln
+
+    return cls
+
+
+def open_(interp, file, mode="r", *a, **k):
+    if a or k:
+        raise Unsupported("open() with buffering/encoding/newline arguments")
+    if not isinstance(mode, str):
+        raise Unsupported("symbolic open mode")
+    key = path_key(interp, file)
+    fs = lookup(interp, key)
+    m = mode.replace("t", "")
+    if m in ("r", "r+"):
+        if fs[key] is None:
+            interp.throw("FileNotFoundError", f"[Errno 2] No such file or directory: {key!r}")
+    elif m == "w":
+        fs[key] = []
+    else:
+        raise Unsupported(f"open mode {mode!r}")
+    cls = interp.import_module("pathlib").ns["_TextIOWrapper"]
+    return Instance(cls, {"_key": key, "_pos": 0, "_mode": m, "_closed": False, "_read": False, "_wrote": False})
+
+
+def make_path_cls(interp):
+    cls = ClassV("Path", [interp.builtins["object"]], {}, "pathlib")
+
+    def method(name):
+        def deco(fn):
+            b = Builtin("Path." + name, lambda interp_, args, kwargs: fn(interp_, *args, **kwargs))
+            b.is_method = True
+            cls.ns[name] = b
+            return fn
+        return deco
+
+    @method("__init__")
+    def init(interp, self, *parts):
+        if not all(isinstance(p, str) for p in parts):
+            raise Unsupported("pathlib.Path of non-literal parts")
+        self.fields["_key"] = "/".join(parts) if parts else "."
+        return None
+
+    @method("exists")
+    def exists(interp, self):
+        fs = lookup(interp, self.fields["_key"])
+        return fs[self.fields["_key"]] is not None
+
+    @method("is_file")
+    def is_file(interp, self):
+        return exists(interp, self)
+
+    @method("__eq__")
+    def eq(interp, self, other):
+        if isinstance(other, Instance) and other.cls is cls:
+            return self.fields["_key"] == other.fields["_key"]
+        return NOT_IMPLEMENTED
+
+    @method("__hash__")
+    def hash_(interp, self):
+        return ("hash", self.fields["_key"])
+
+    @method("__str__")
+    def str_(interp, self):
+        return self.fields["_key"]
+
+    @method("__fspath__")
+    def fspath(interp, self):
+        return self.fields["_key"]
+
+    return cls
 
 
 def stub_module(interp, name):
     m = ModuleV(name, {})
     m.stub = True
+    if name == "pathlib":
+        m.ns["Path"] = make_path_cls(interp)
+        m.ns["PurePath"] = m.ns["Path"]
+        m.ns["_TextIOWrapper"] = make_file_cls(interp)
     return m
